@@ -214,12 +214,13 @@ def programs(ctx: Ctx):
     if not cases:
         raise ToolFailure("no corpus cases found under test-data/unit")
     rng.shuffle(cases)
-    n_corpus = ctx.pick(170, len(cases))
-    n_gen = ctx.pick(60, 1500)
-    k_corrupt = ctx.pick(2, 3)
+    n_corpus = ctx.pick(150, len(cases))
+    n_gen = ctx.pick(45, 800)
+    k_corrupt = ctx.pick(2, 1)
+    k_corrupt_gen = 2
     tasks = []
     for name, src in cases[:n_corpus]:
-        vers = [rng.choice(VERSIONS)] if ctx.quick() else VERSIONS
+        vers = [rng.choice(VERSIONS)] if ctx.quick() else rng.sample(VERSIONS, 2)
         for ver in vers:
             tasks.append(((name, "base", ver), src, ver, "corpus"))
         ver = rng.choice(vers)
@@ -231,7 +232,7 @@ def programs(ctx: Ctx):
         for f in feats:
             ctx.dist("generated_features", f)
         tasks.append((("gen-%d" % i, "base", ver), src, ver, "generated"))
-        for kind, new in corpus.corrupt(src, rng, k_corrupt, skip_lines=gen.PREAMBLE.count("\n")):
+        for kind, new in corpus.corrupt(src, rng, k_corrupt_gen, skip_lines=gen.PREAMBLE.count("\n")):
             tasks.append((("gen-%d" % i, kind, ver), new, ver, "generated-corrupted"))
     for name, src, vers in classify.PROBES:
         for ver in vers:
@@ -260,6 +261,9 @@ def differential(ctx: Ctx) -> None:
         ctx.count("traces_validated_against_impl")
         classify.program_case(ctx, st, key, src, tuple(ver), origin, d, n)
     st.finish(ctx)
+    nskip = sum(st.skipped.values())
+    if nskip > max(5, len(tasks) // 20):
+        raise ToolFailure("too many programs could not be compared (timeouts / dead workers): %r" % dict(st.skipped))
     ctx.coverage["differential_s"] = round(time.time() - t0, 1)
 
 
